@@ -247,6 +247,7 @@ def run(ctx, rep):
     r194(ctx, rep, members, allg, m)
     r195(ctx, rep, fo, fc)
     r196(ctx, rep)
+    r197(ctx, rep, fo, m)
 
 
 def enum_tables(ctx):
@@ -811,3 +812,33 @@ def r196(ctx, rep):
     else:
         rep.bad("R19.6", "reachability")
         rep.finding("R19.6", q, "Quadratic.__init__ unreachable", q.node.lineno, "the nb_points lower-bound check is not reachable from minimize")
+
+
+def r197(ctx, rep, fo, m):
+    """the completion works on a private copy of the caller's dict, with the
+    dimension of the reduced problem"""
+    rep.rule("R19.7", "options are completed in a private copy (so completed entries never come back as user-supplied) and validated/defaulted with the dimension of the reduced problem (pb.n)")
+    from ..ownership import Ownership
+    own = Ownership(ctx)
+    k = 0
+    for ev in ctx.events(m):
+        if ev.kind == "call" and any(t.kind == "repo" and t.name == fo.qual for t in ev.targets):
+            k += 1
+            a0 = ev.node.args[0] if ev.node.args else None
+            a1 = ev.node.args[1] if len(ev.node.args) > 1 else None
+            hit = own.expr_tainted(m, a0, at=a0) if a0 is not None else ["?"]
+            if hit:
+                rep.bad("R19.7", f"minimize:{ev.line} options copy")
+                rep.finding("R19.7", m, ev.text()[:80], ev.line,
+                            "the caller's options dict itself is completed: after one call it contains nb_points/maxfev/maxiter/... of that problem, which a second call takes for user-supplied values (wrong defaults, spurious ValueError)")
+            else:
+                rep.ok("R19.7", f"minimize:{ev.line} the completed dict is a private copy")
+            good = isinstance(a1, ast.Attribute) and a1.attr == "n" and any(x == ("inst", "Problem") for x in ctx.type_of(a1.value, m))
+            if good:
+                rep.ok("R19.7", f"minimize:{ev.line} dimension argument is pb.n (reduced problem)")
+            else:
+                rep.bad("R19.7", f"minimize:{ev.line} dimension argument")
+                rep.finding("R19.7", m, ev.text()[:80], ev.line,
+                            f"nb_points is validated against (n+1)(n+2)/2 and the n-dependent defaults are computed with `{norm(a1) if a1 is not None else '?'}` instead of the dimension of the reduced problem (pb.n): with fixed variables too many points are accepted and the defaults are wrong")
+    if k < 1:
+        raise AnalysisError("call of _set_default_options in minimize not found")
